@@ -26,8 +26,15 @@ class SimFile(io.BufferedIOBase):
     """
 
     def __init__(self, data: bytes = b'', clock: EventClock = None, name: str = '<sim>', writable: bool = False,
-                 log: bool = True):
+                 log: bool = True, foreign_fileno: bool = False):
         super().__init__()
+        #: ``foreign_fileno``: like gzip.GzipFile or a stream wrapped around a device, the object HAS a file descriptor, but
+        #: the descriptor is not the byte stream that read() delivers (here: an anonymous 64 byte file)
+        self._fd = None
+        if foreign_fileno:
+            import os
+            self._fd = os.memfd_create('verif-foreign')
+            os.write(self._fd, b'\x1f\x8b' + b'\x00' * 62)
         self._data = bytearray(data)
         self._pos = 0
         self.clock = clock or EventClock()
@@ -142,6 +149,8 @@ class SimFile(io.BufferedIOBase):
         return False
 
     def fileno(self):
+        if self._fd is not None:
+            return self._fd
         raise io.UnsupportedOperation('SimFile has no file descriptor')
 
     def isatty(self):
